@@ -35,8 +35,8 @@ pub fn all() -> Vec<Prop> {
                 "documents come from the C01 generator (carve-outs of DESIGN.md 3.2)",
             ],
             batches: vec![
-                Batch { name: "sweep", scenario: crate::scen_a::c19_sweep, quick: 30000, thorough: 40000, varies: "fault offset x fault kind x EINTR bursts x chunk policy x xref format x plain/incremental" },
-                Batch { name: "file", scenario: crate::scen_a::c19_file, quick: 600, thorough: 6000, varies: "real kernel faults on save(path): ENOSPC below/above the BufWriter buffer, ENOENT, EISDIR" },
+                Batch { name: "sweep", scenario: crate::scen_a::c19_sweep, quick: 50000, thorough: 60000, varies: "fault offset x fault kind x EINTR bursts x chunk policy x xref format x plain/incremental" },
+                Batch { name: "file", scenario: crate::scen_a::c19_file, quick: 2000, thorough: 20000, varies: "real kernel faults on save(path): ENOSPC below/above the BufWriter buffer, ENOENT, EISDIR" },
             ],
         },
         Prop {
@@ -49,7 +49,7 @@ pub fn all() -> Vec<Prop> {
                 "workload domain carve-outs of DESIGN.md 3.2 (no object 0, no top-level ObjStm/XRef/Linearized-typed objects, streams built with Stream::new)",
                 "equality is rules R1-R4 of DESIGN.md 3.4",
             ],
-            batches: vec![Batch { name: "roundtrip", scenario: crate::scen_a::c01_roundtrip, quick: 40000, thorough: 600000, varies: "sink chunking/EINTR x source chunking/EINTR x loader completion order x repeated cycles x parallel/sequential reader" }],
+            batches: vec![Batch { name: "roundtrip", scenario: crate::scen_a::c01_roundtrip, quick: 200000, thorough: 5000000, varies: "sink chunking/EINTR x source chunking/EINTR x loader completion order x repeated cycles x parallel/sequential reader" }],
         },
         Prop {
             id: "C03",
@@ -61,7 +61,7 @@ pub fn all() -> Vec<Prop> {
                 "the strict reader implements exactly the structural demands C03 lists (header + binary comment, startxref, exact offsets, 20-byte entries, W/Index/Length consistency, stream Length, Size, byte accounting)",
                 "for incremental saves the previously accepted image is trusted as a prefix",
             ],
-            batches: vec![Batch { name: "images", scenario: crate::scen_a::c03_images, quick: 40000, thorough: 600000, varies: "sink chunking/EINTR x failed-then-repeated saves x reload/resave x incremental appends (persist step under faults)" }],
+            batches: vec![Batch { name: "images", scenario: crate::scen_a::c03_images, quick: 250000, thorough: 5000000, varies: "sink chunking/EINTR x failed-then-repeated saves x reload/resave x incremental appends (persist step under faults)" }],
         },
         Prop {
             id: "C05",
@@ -74,7 +74,7 @@ pub fn all() -> Vec<Prop> {
                 "wrong passwords differ from both real ones within their first 32 ASCII bytes (no reliance on lopdf's password sanitisation)",
                 "configurations the constructor rejects (e.g. SASLprep-prohibited passwords) are skipped and counted",
             ],
-            batches: vec![Batch { name: "encrypt", scenario: crate::scen_d::c05_encrypt, quick: 30000, thorough: 400000, varies: "RNG bytes (IVs, salts, pad bytes; 5 adversarial modes) x sink/source chunking x loader schedule x in-memory vs persisted path" }],
+            batches: vec![Batch { name: "encrypt", scenario: crate::scen_d::c05_encrypt, quick: 70000, thorough: 1500000, varies: "RNG bytes (IVs, salts, pad bytes; 5 adversarial modes) x sink/source chunking x loader schedule x in-memory vs persisted path" }],
         },
         Prop {
             id: "C11",
@@ -85,7 +85,7 @@ pub fn all() -> Vec<Prop> {
                 "starting documents are well-formed (each page once in one Kids, Count correct, content decodable); catalog, page-tree nodes, pages and content streams are never the target of an explicit delete_object/set_object",
                 "the independent reading of page order, page content tokens, usable resources and reachability is pdfmodel/src/pagegen.rs",
             ],
-            batches: vec![Batch { name: "program", scenario: crate::scen_e::c11_program, quick: 40000, thorough: 600000, varies: "sink chunking/EINTR/hard faults inside save_to x crash-and-reload as an operation x loader schedule and source chunking on reload x operation programs" }],
+            batches: vec![Batch { name: "program", scenario: crate::scen_e::c11_program, quick: 250000, thorough: 5000000, varies: "sink chunking/EINTR/hard faults inside save_to x crash-and-reload as an operation x loader schedule and source chunking on reload x operation programs" }],
         },
         Prop {
             id: "C02",
@@ -97,7 +97,7 @@ pub fn all() -> Vec<Prop> {
                 "rules R1-R3 and R6 (an indirect stream Length may come back as the resolved integer); structural objects (xref streams, ObjStm containers) are allowed extras",
                 "hybrid-reference files and revisions that free objects are outside the domain",
             ],
-            batches: vec![Batch { name: "foreign", scenario: crate::scen_b::c02_foreign, quick: 30000, thorough: 500000, varies: "source read chunking/EINTR x loader completion order x parallel/sequential reader (producer syntax is workload from a simulated peer)" }],
+            batches: vec![Batch { name: "foreign", scenario: crate::scen_b::c02_foreign, quick: 300000, thorough: 6000000, varies: "source read chunking/EINTR x loader completion order x parallel/sequential reader (producer syntax is workload from a simulated peer)" }],
         },
         Prop {
             id: "C08",
@@ -109,8 +109,8 @@ pub fn all() -> Vec<Prop> {
                 "the fidelity batch (real rayon, real pools) is not a deciding step: mismatches are counted and reported, never a VIOLATION",
             ],
             batches: vec![
-                Batch { name: "schedules", scenario: crate::scen_b::c08_schedules, quick: 6000, thorough: 60000, varies: "completion order of the parallel loading phase x nested section order x simulated pool size x storage faults on the stored image" },
-                Batch { name: "fidelity", scenario: crate::scen_b::c08_fidelity, quick: 150, thorough: 1500, varies: "(stub fidelity, non-deciding) real rayon pools of 1,2,4,8,16 threads" },
+                Batch { name: "schedules", scenario: crate::scen_b::c08_schedules, quick: 40000, thorough: 300000, varies: "completion order of the parallel loading phase x nested section order x simulated pool size x storage faults on the stored image" },
+                Batch { name: "fidelity", scenario: crate::scen_b::c08_fidelity, quick: 300, thorough: 3000, varies: "(stub fidelity, non-deciding) real rayon pools of 1,2,4,8,16 threads" },
             ],
         },
         Prop {
@@ -124,8 +124,8 @@ pub fn all() -> Vec<Prop> {
                 "bases with bytes before the header are excluded from the IncrementalDocument legs",
             ],
             batches: vec![
-                Batch { name: "foreign-history", scenario: crate::scen_c::c07_foreign_history, quick: 12000, thorough: 200000, varies: "revision histories x who wrote each revision x loader completion order x source chunking" },
-                Batch { name: "lopdf-updates", scenario: crate::scen_c::c07_lopdf_updates, quick: 12000, thorough: 200000, varies: "IncrementalDocument load/edit/save cycles x sink and source chunking/EINTR x loader completion order" },
+                Batch { name: "foreign-history", scenario: crate::scen_c::c07_foreign_history, quick: 80000, thorough: 1200000, varies: "revision histories x who wrote each revision x loader completion order x source chunking" },
+                Batch { name: "lopdf-updates", scenario: crate::scen_c::c07_lopdf_updates, quick: 80000, thorough: 1200000, varies: "IncrementalDocument load/edit/save cycles x sink and source chunking/EINTR x loader completion order" },
             ],
         },
         Prop {
@@ -137,7 +137,7 @@ pub fn all() -> Vec<Prop> {
                 "claimed only over the fault-reachable neighbourhood of valid artefacts, not over grammar-directed adversarial constructions (DESIGN.md 4 / C04)",
                 "stack bound = 2 MiB (default of std and rayon worker threads)",
             ],
-            batches: vec![Batch { name: "faulted", scenario: crate::scen_f::c04_faulted, quick: 25000, thorough: 400000, varies: "storage faults on stored artefacts x read faults (short reads, EINTR, hard error, early EOF) x loader schedule x allocator budget x 2 MiB stack" }],
+            batches: vec![Batch { name: "faulted", scenario: crate::scen_f::c04_faulted, quick: 60000, thorough: 1200000, varies: "storage faults on stored artefacts x read faults (short reads, EINTR, hard error, early EOF) x loader schedule x allocator budget x 2 MiB stack" }],
         },
     ]
 }
